@@ -10,7 +10,7 @@ if [ ! -d $WT ]; then tools/mkworktree.sh $WT >/dev/null 2>&1 || exit 3; fi
 git -C $WT checkout -q -- . && git -C $WT checkout -q --detach "$(git -C /repo rev-parse HEAD)" || exit 3
 git -C $WT apply "$P" || { echo "patch does not apply: $P"; exit 3; }
 for c in "$@"; do
-  VERIF_REPO=$WT timeout 1800 bin/check "$c" --tier quick > /var/tmp/try_$c.log 2>&1; rc=$?
+  VERIF_EVIDENCE_DIR=/var/tmp/verif-seed-evidence VERIF_REPO=$WT timeout 1800 bin/check "$c" --tier quick > /var/tmp/try_$c.log 2>&1; rc=$?
   echo "== $c rc=$rc: $(grep -c '^VIOLATION' /var/tmp/try_$c.log) violation keys"; grep "key=" /var/tmp/try_$c.log | cut -c1-220 | head -4
 done
 git -C $WT checkout -q -- .
